@@ -1,3 +1,4 @@
 import BalmProofs.Props.C07
 #print axioms Balm.Drivers.findDrivers_spec
 #print axioms Balm.Drivers.exists_min_below
+#print axioms Balm.Impl.findDrivers_sound
